@@ -366,6 +366,7 @@ class Analyzer:
         self.entry_cls = q
         self.entry_copies = self.ix.is_builder(fn) or delegate
         self.delegate, self.in_builder, self.builder_calls = delegate, 0, 0
+        self.guards = []            # stack of (paths, attr) for the enclosing tests `<path>.<attr> is None`
         env = self._bind_params(fn, None, None, entry=True)
         env[fn.args.args[0].arg] = [SELF]
         self._run_fn(q, defc, fn, env, depth=0, stack=[(defc, mname)], top=True)
@@ -473,6 +474,20 @@ class Analyzer:
 
     def _write(self, base, attr, node, mod):
         """`base.attr = ...` (rebinding an attribute of object `base`)"""
+        if any(a == attr and base in paths for paths, a in getattr(self, "guards", [])):
+            # the assignment stands under `if <base>.<attr> is None [and ...]`: it only ever names an un-named object
+            real_emit = self._emit
+
+            def guarded_emit(tg, kind, a_, node_, mod_):
+                real_emit(tg, "rebind_unset" if kind == "rebind" else kind, a_, node_, mod_)
+            self._emit = guarded_emit
+            try:
+                return self._write_plain(base, attr, node, mod)
+            finally:
+                del self._emit
+        return self._write_plain(base, attr, node, mod)
+
+    def _write_plain(self, base, attr, node, mod):
         if base == SELF and getattr(self, "delegate", False) and not self.in_builder:
             self._emit("via:<receiver>", "rebind", attr, node, mod)
         elif base == SELF or base == SELFCOPY:
@@ -861,7 +876,25 @@ class _Frame:
                 self.an.returns.append((v, s.value))
         elif isinstance(s, ast.If):
             self.ev(s.test)
-            self.block(s.body, True)
+            # facts the body may rely on: the test, or each conjunct of an `and`, of the form  X.attr is None
+            facts = []
+            conj = s.test.values if isinstance(s.test, ast.BoolOp) and isinstance(s.test.op, ast.And) else [s.test]
+            for t in conj:
+                if isinstance(t, ast.Compare) and len(t.ops) == 1 and isinstance(t.ops[0], ast.Is) \
+                        and isinstance(t.comparators[0], ast.Constant) and t.comparators[0].value is None \
+                        and isinstance(t.left, ast.Attribute):
+                    saved = self.mute
+                    self.mute += 1          # evaluating the path again must not emit anything
+                    try:
+                        paths = self.ev(t.left.value)
+                    finally:
+                        self.mute = saved
+                    facts.append(([p_ for p_ in paths if p_ not in (OTHER, ("none",))], t.left.attr))
+            self.an.guards += facts
+            try:
+                self.block(s.body, True)
+            finally:
+                del self.an.guards[len(self.an.guards) - len(facts):]
             self.block(s.orelse, True)
         elif isinstance(s, (ast.For, ast.While)):
             if isinstance(s, ast.For):
@@ -1081,6 +1114,8 @@ def _tgt(t):
 def _kind(k):
     if k == "rebind":
         return "KRebind"
+    if k == "rebind_unset":
+        return "KRebindUnset"
     if k == "inplace":
         return "KInPlace"
     if k.startswith("nested:"):
